@@ -1708,6 +1708,12 @@ class Parser(object):
             value = vrd.value
             xPlacement, yPlacement = (value.xPlacement, value.yPlacement)
             xAdvance, yAdvance = (value.xAdvance, value.yAdvance)
+            namedDevices = (
+                value.xPlaDevice,
+                value.yPlaDevice,
+                value.xAdvDevice,
+                value.yAdvDevice,
+            )
         else:
             xPlacement, yPlacement, xAdvance, yAdvance = (
                 self.expect_number_(variable=True),
@@ -1715,8 +1721,11 @@ class Parser(object):
                 self.expect_number_(variable=True),
                 self.expect_number_(variable=True),
             )
+            namedDevices = None
 
-        if self.next_token_ == "<":
+        if namedDevices is not None:
+            xPlaDevice, yPlaDevice, xAdvDevice, yAdvDevice = namedDevices
+        elif self.next_token_ == "<":
             xPlaDevice, yPlaDevice, xAdvDevice, yAdvDevice = (
                 self.parse_device_(),
                 self.parse_device_(),
